@@ -4,6 +4,7 @@ pub mod core;
 pub mod lexchk;
 pub mod textchk;
 pub mod valsem;
+pub mod c12;
 pub mod c18;
 pub mod c19;
 pub mod c20;
@@ -20,6 +21,7 @@ pub fn registry() -> Vec<CheckDef> {
     v.extend(valsem::defs());
     v.extend(lexchk::defs());
     v.extend(textchk::defs());
+    v.push(c12::def());
     v.push(c18::def());
     v.push(c19::def());
     v.push(c20::def());
